@@ -112,6 +112,23 @@ def detach_tracked(ob, d):
     ob.frame()
 
 
+@scenario('C19', 'clone.tracked', 'torchtt._tt_base.TT.clone', quick=[dict(d=1), dict(d=2)], replay='copies')
+def clone_tracked(ob, d):
+    """clone of a tensor whose cores are watched by autograd: still no storage shared with the original, same value"""
+    ex = ob.ex
+    x = ob.tt('x', d)
+    for c in x.attrs['cores']:
+        c.requires_grad = True
+    ob.replay_args = {'x': 'x', 'op': 'clone_tracked'}
+    r = ex.call(ex.getattr(x, 'clone'), [])
+    ob.wf(r)
+    shared = [k for k, (a, b) in enumerate(zip(r.attrs['cores'], x.attrs['cores'])) if a.storage is b.storage]
+    ob.prove('no_shared_storage', not shared)
+    idx = mode_index(ob, r)
+    ob.prove_eq('value', val(ob, r, idx), val(ob, x, idx))
+    ob.frame()
+
+
 @scenario('C19', 'canary.load_returns_other_cores', 'torchtt._extras.load', quick=[dict()], replay=None)
 def canary(ob):
     ex = ob.ex
